@@ -211,12 +211,12 @@ def main():
                 continue
             if not same(co, mo, False):
                 ck.violation("corr_bopt_%s.txt" % qid, head + "BOPT %s %s\n# model: %s  C: %s\n" % (cs, rs, mo, co),
-                             "correspondence Basis.basis_optimalstatus vs QSexact_basis_optimalstatus broke on basis %s %s: C %s, model %s "
-                             "(the model verdict is the exact primal+dual feasibility of the basic solution: theorem optimalstatus_iff)" % (cs, rs, co, mo),
+                             "correspondence Basis.lib_optimalstatus vs QSexact_basis_optimalstatus broke on basis %s %s: C %s, model %s "
+                             "(the model verdict is the exact primal+dual feasibility of the basic solution of the basis as loaded: theorem lib_optimalstatus_iff)" % (cs, rs, co, mo),
                              match=dict(kind="corr-bopt"))
             if not same(cd, md, True):
                 ck.violation("corr_bdual_%s.txt" % qid, head + "BDUALP %d %s %s\n# model: %s  C: %s\n" % (NEUTRAL_G, cs, rs, md, cd),
-                             "correspondence Basis.basis_dualstatus vs QSexact_basis_dualstatus broke on basis %s %s: C %s, model %s" % (cs, rs, cd, md),
+                             "correspondence Basis.lib_dualstatus vs QSexact_basis_dualstatus broke on basis %s %s: C %s, model %s" % (cs, rs, cd, md),
                              match=dict(kind="corr-bdual"))
             else:
                 # the same calls as an ordinary caller makes them (separate process, stack never prepared)
@@ -241,11 +241,14 @@ def main():
             if co[0] == "res" and co[1] == 1:
                 a = ans.get(qid + ".k")
                 if a and a[0] in ("0", "1"):
-                    kkt, nbok, v = a[0] == "1", a[1] == "1", a[3]
-                    bump("optimal-verdict/kkt=%d,nonbasic_ok=%d" % (kkt, nbok))
+                    kkt, nbok, v, lpok = a[0] == "1", a[1] == "1", a[3], a[4] == "1"
+                    bump("optimal-verdict/kkt=%d,nonbasic_ok(loaded)=%d,lp_bounds_ok=%d" % (kkt, nbok, lpok))
+                    if lpok and not nbok:
+                        ck.violation("nbok_%s.txt" % qid, head + "BOPT %s %s\n" % (cs, rs),
+                                     "internal: lp_bounds_ok holds but the loaded basis is not nonbasic_ok (contradicts theorem nonbasic_ok_loaded)", no_input=True)
                     if nbok and not kkt:
                         ck.violation("optimal_not_kkt_%s.txt" % qid, head + "BOPT %s %s\n" % (cs, rs),
-                                     "basis %s %s is called optimal but its exact basic solution fails the verified KKT checker" % (cs, rs), match=dict(kind="optimal-not-kkt"))
+                                     "basis %s %s is called optimal but the exact basic solution of the basis as loaded fails the verified KKT checker" % (cs, rs), match=dict(kind="optimal-not-kkt"))
                     if kkt:
                         optvals.setdefault(cid, set()).add(fq(v))
                         ck.sample(dict(lp=lp_to_json(lp), basis=[cs, rs], verdict=1, objval=v), limit=3)
